@@ -78,7 +78,7 @@ def c11(tier, seed):
              "with std::io::Cursor over the same plaintext (seek from start/current/end to targets in [0,len], reads, position queries); "
              "one evaluation = one (layer, length) with its set of histories; distinct = distinct (layer, length, seed); non-trivial = at least 2 operations",
         musthit=["musthit:seek_to_len", "musthit:seek_end_len_multiple_of_chunk", "musthit:position_query_in_last_partial_chunk",
-                 "lenclass:enc:len%chunk=0", "lenclass:enc:len<tag", "lenclass:comp:len%block=0"],
+                 "lenclass:enc:len%chunk=0", "lenclass:enc:len<tag", "lenclass:comp:len%block=0", "zero_size_reads", "held:comp_beyond_4gib"],
         softhit=["musthit:compressed_block_end_next_to_chunk_edge", "musthit:lone_unneeded_final_byte_starts_a_chunk"],
     )
 
@@ -215,7 +215,8 @@ def c07(tier, seed):
              "incompressible content); (iii) recipients 1..6: the right key at every position among wrong keys must open, wrong keys / no key must not; "
              "distinct = distinct case; all non-trivial",
         musthit=["musthit:cross_process_archives", "scan:layers1", "scan:layers3", "keylist:opened_by_recipient", "keylist:refused_for_non_recipient",
-                 "keylist:recipient_at_position_3", "recipients:85+", "config_route:4", "config_route:5"],
+                 "keylist:recipient_at_position_3", "recipients:85+", "config_route:4", "config_route:5",
+                 "musthit:archives_created_on_both_sides_of_a_fork", "recipients_registered_one_call_at_a_time"],
         assumptions=["non-repetition and non-constant bits are observed, not randomness: a constant, counter or clock seed is caught, a subtly biased generator is not"],
     )
 
@@ -256,7 +257,7 @@ def c15(tier, seed):
              "(thorough), 4 layer combos, several levels, incompressible and constant data; verdict: peak(largest) - peak(smallest) <= 2 MiB and peak under a frozen "
              "ceiling; distinct = distinct (operation, layers, level, data, size); all non-trivial",
         musthit=["growth_comparisons:write", "growth_comparisons:repair", "growth_comparisons:extract", "shape:oneblock", "shape:interleaved:subset_extraction", "shape:oneblock:subset_extraction",
-                 "shape:twoopen", "sources_with_short_reads"],
+                 "shape:twoopen", "shape:manyparts", "shape:shortsource", "sources_with_short_reads"],
         assumptions=["decided for the sizes actually streamed; not extrapolated beyond them"],
     )
 
